@@ -206,11 +206,12 @@ def ref_walk(t, S, L, w, start=0):
     return True, s, n
 
 
-def c10_walk(t, w, start, S=2, L=2):
+def c10_walk(t, w, start, S=2, L=2, sv=0):
+    """sv: the automaton's own (default) start vertex; start: an explicitly requested start state"""
     fsa = _fsa()
-    A = fsa.FSA(table_to_graph(t, S, L), start_vertices=[0])
+    A = fsa.FSA(table_to_graph(t, S, L), start_vertices=[sv])
     word = "".join(LABELS[x] for x in w)
-    ok, end, n = ref_walk(t, S, L, w, 0)
+    ok, end, n = ref_walk(t, S, L, w, sv)
     if A.accepts(word) != ok:
         return False
     if ok and A.follow_word(word) != end:
@@ -242,11 +243,11 @@ def ref_language(t, S, L, n, start=0):
     return out
 
 
-def c10_enumerate(t, n, start, S=2, L=2):
+def c10_enumerate(t, n, start, S=2, L=2, sv=0):
     fsa = _fsa()
-    A = fsa.FSA(table_to_graph(t, S, L), start_vertices=[0])
+    A = fsa.FSA(table_to_graph(t, S, L), start_vertices=[sv])
     for st in (None, start):
-        s0 = 0 if st is None else st
+        s0 = sv if st is None else st
         want = sorted(("".join(LABELS[x] for x in w), s) for (w, s) in ref_language(t, S, L, n, s0))
         got = list(A.enumerate_fixed_length_paths(n, start_vertex=st, with_states=True))
         if sorted(got) != want:
